@@ -176,6 +176,34 @@ pub fn generate(seed: u64, thorough: bool, sink: &mut Sink) -> Vec<String> {
     }
     push("kind-annotations", v, sink);
   }
+  // array patterns of every form (elements, wildcards, `|` rest, `…` spread with and without a capture, elements
+  // after the spread) in function arms and in match arms, with and without a guard
+  {
+    let mut rng = Rng::new(seed ^ 0xA77A);
+    let names = ["a", "b", "h", "m", "t", "z", "q"];
+    let mut v: Vec<String> = vec![];
+    for _ in 0..per {
+      let mut nm = |rng: &mut Rng| -> String { if rng.chance(1, 5) { "*".to_string() } else if rng.chance(1, 6) { format!("{}", rng.below(9)) } else { (*rng.pick(&names)).to_string() } };
+      let pat = match rng.below(9) {
+        0 => format!("[{} {}]", nm(&mut rng), nm(&mut rng)),
+        1 => format!("[{}, {} | {}]", nm(&mut rng), nm(&mut rng), rng.pick(&names)),
+        2 => format!("[{} | {}]", nm(&mut rng), rng.pick(&names)),
+        3 => format!("[{} …]", nm(&mut rng)),
+        4 => format!("[… {}]", nm(&mut rng)),
+        5 => format!("[{} … {}]", nm(&mut rng), nm(&mut rng)),
+        6 => format!("[* … {}]", rng.pick(&names)),
+        7 => format!("[* … {} {}]", rng.pick(&names), nm(&mut rng)),
+        _ => format!("[{} {} … {} {}]", nm(&mut rng), nm(&mut rng), nm(&mut rng), nm(&mut rng)),
+      };
+      let guard = if rng.chance(1, 3) { ", 1 > 0" } else { "" };
+      if rng.chance(1, 2) {
+        v.push(format!("f(x<[u64]>) => <u64>\n  ├ {}{} => 1\n  └ * => 0.\nf([1 2 3])", pat, guard));
+      } else {
+        v.push(format!("x := [1 2 3]\ny := x? | {}{} => 1 | * => 0.", pat, guard));
+      }
+    }
+    push("array-patterns", v, sink);
+  }
   // string literals: the body is a sequence of graphemes of known class; a quote in the body is always
   // preceded by a backslash, a backslash may stand before anything (an escape where one is defined)
   {
